@@ -174,6 +174,16 @@ func (w *Worker) Alive() bool {
 	return r.Outcome == OK
 }
 
+// Ping asks the worker for a sign of life without restarting it: OK, Crash (the process is gone;
+// Stderr has its last words) or Hang (no answer within the timeout, which on a loaded machine is
+// no evidence of anything).
+func (w *Worker) Ping(timeout time.Duration) Result {
+	if w.dead {
+		return Result{Outcome: Crash, Stderr: "(worker already dead)\n" + w.stderrTail()}
+	}
+	return w.call(&wire.Req{Op: "ping"}, timeout, false)
+}
+
 // Call sends one request. On crash or hang the worker is restarted before returning.
 func (w *Worker) Call(req *wire.Req, timeout time.Duration) Result {
 	return w.call(req, timeout, true)
